@@ -110,6 +110,24 @@ def run(run):
                             filt = any(is_call(x, ("filter", "take", "skip", "step_by", "take_while", "skip_while")) for x in S.subterms(it))
                             if ins and not filt and any(is_call(y, "index") and self_field_term(y[2][0], "node_priority_list") for y in S.subterms(ins[0][2][1])):
                                 ok = True
+                if not ok:
+                    # the same as an iterator chain: worklist.extend(node_values.keys().map(|n| node_priority_list[n.index()]))
+                    from .lib import bindsrc as B
+                    for i, s_ in enumerate(st):
+                        if idx_mut and i < idx_mut[0]:
+                            for x in S.subterms(s_):
+                                if is_call(x, ("extend", "append")) and len(x[2]) == 2 and self_field_term(x[2][0], "worklist"):
+                                    src = x[2][1]
+                                    keys = any(is_call(y, ("keys", "iter")) and self_field_term(y[2][0], "node_values") for y in S.subterms(src))
+                                    filt = any(is_call(y, ("filter", "take", "skip", "step_by", "take_while", "skip_while", "filter_map")) for y in S.subterms(src))
+                                    pri = False
+                                    for y in S.subterms(src):
+                                        if isinstance(y, tuple) and y and y[0] == "closure":
+                                            c_ = F.by_path.get(y[1])
+                                            if c_ is not None and any(z.get("k") == "Field" and z.get("fn") == "node_priority_list" for z in T.walk(c_["body"])) or (c_ is not None and any(z.get("k") in ("Var", "Upvar") and "priority" in (z.get("n") or "") for z in T.walk(c_["body"]))):
+                                                pri = True
+                                    if keys and not filt and pri:
+                                        ok = True
                 run.check("R2", key, ok, "%s hands out mutable access to node values without first enqueuing every node that has a value" % f["name"], site)
             else:
                 run.undecided("R2", key, "unrecognised mutation of node_values", site)
@@ -238,17 +256,26 @@ def run(run):
         sy = S.Sym(F)
         env = {}
         t = sy.term(f["body"], env)
-        loops = T.for_loops(f["body"])
+        from .lib import iterctx as IC
+        from .lib import bindsrc as B
+        ue = [x for x in T.walk_fn(F, f) if T.is_call(x, "update_edge")]
         ok = False
-        if loops:
-            node, pat, it, body = loops[0]
-            itt = sy.ev(it, env)
-            edges_call = [x for x in S.subterms(itt) if is_call(x, "edges")]
-            filt = any(is_call(x, ("filter", "take", "skip", "step_by", "take_while", "skip_while", "filter_map", "find")) for x in S.subterms(itt))
-            ue = [x for x in T.walk(body) if T.is_call(x, "update_edge")]
-            cond = [x for x in T.walk(body) if x.get("k") in ("If", "Break", "Continue", "Return")]
-            outgoing = bool(edges_call) and len(edges_call[0][2]) == 2 and edges_call[0][2][1][0] == "var" and edges_call[0][2][1][1] == "node"
-            ok = outgoing and not filt and len(ue) == 1 and not cond
+        if len(ue) == 1:
+            ctx = IC.contexts(F, f, ue[0])
+            roots = B.bodies(F, f)
+            node_ids = {b[0] for p_ in f["params"] if p_.get("p") for b in T.pat_bindings(p_["p"]) if b[1] == "node"}
+            outgoing, filt = False, []
+            for e_ in ctx:
+                for src, how in B.sources(F, roots, e_):
+                    for x in B.walk_with_closures(F, src):
+                        if T.is_call(x, "edges") and len(x["a"]) == 2 and T.root_var_id(x["a"][1]) in node_ids:
+                            outgoing = True
+                        if T.is_call(x, IC.RESTRICT):
+                            filt.append(x["n"])
+            own, _chain = IC.owner(F, f, ue[0])
+            conds = [cd for n_, cds in T.paths_to(own["body"], lambda y: y is ue[0]) for cd in cds if not (cd[0] == "arm" and (cd[1].get("ms", "").startswith("ForLoop") or T.is_call(T.peel(cd[1]["e"]), "next")))]
+            exits = [x for x in T.walk(own["body"]) if x.get("k") in ("Break", "Continue", "Return") and not x.get("x") and x.get("ds") != "ForLoop"]
+            ok = outgoing and not filt and not conds and not exits
         run.check("R3", "update_node|every-outgoing-edge-updated", ok, "update_node must call update_edge for every outgoing edge of the node (graph.edges(node), no filter, no early exit)", F.loc(f["body"]))
         # update_edge
         f = F.fn("update_edge", adt="Computation", trait="")
@@ -339,7 +366,7 @@ def run(run):
 
     def r4():
         f = F.fn("compute_with_max_steps", adt="Computation")
-        sy = S.Sym(F)
+        sy = S.Sym(F, fold=True)
         env = {}
         t = sy.term(f["body"], env)
         site = F.loc(f["body"])
@@ -350,12 +377,31 @@ def run(run):
             x = ifs[0]
             c = x[1]
             then_proc = any(is_call(y, "update_node") for y in S.subterms(x[2]))
+            extra_inc = ()
+            cv = S.value(c)
+            if cv[0] == "ite" and S.value(cv[2]) == ("lit", True) and S.value(cv[3]) == ("lit", False):
+                # the test was moved into a closure / helper that also does the bookkeeping: `if consume_step(node) {..}`
+                c, extra_inc = cv[1], cv[2]
+            elif cv[0] == "ite" and S.value(cv[2]) == ("lit", False) and S.value(cv[3]) == ("lit", True):
+                c, extra_inc = ("not", cv[1]), cv[3]
+                if c[1][0] == "bin" and c[1][1] in ("Lt", "Ge"):
+                    c = ("bin", "Ge" if c[1][1] == "Lt" else "Lt", c[1][2], c[1][3])
             ok = c[0] == "bin" and ((c[1] == "Lt" and then_proc) or (c[1] == "Ge" and not then_proc)) and is_call(c[2], "index") and c[2][2][0][0] == "var" and c[2][2][0][1] == "steps" and c[3][0] == "var" and c[3][1] == "max_steps"
-            run.check("R4", "step-test|steps-lt-max", ok, "a node may be processed only while steps[node] < max_steps; test is %s" % fmt(c), site)
+            if c[0] != "bin":
+                run.undecided("R4", "step-test|steps-lt-max", "the test that guards the processing is not a comparison: %s" % fmt(c)[:120], site)
+                return_early = True
+            else:
+                return_early = False
+                run.check("R4", "step-test|steps-lt-max", ok, "a node may be processed only while steps[node] < max_steps; test is %s" % fmt(c), site)
             proc_b = x[2] if then_proc else x[3]
+            if extra_inc:
+                proc_b = ("seq", (extra_inc,), proc_b)
             incs = [y for y in S.subterms(proc_b) if isinstance(y, tuple) and y and y[0] == "assignop" and y[1] in ("Add", "AddAssign") and is_call(y[2], ("index", "index_mut")) and y[2][2][0][0] == "var" and y[2][2][0][1] == "steps" and y[3] == ("lit", 1)]
             same_idx = bool(incs) and incs[0][2][2][1] == c[2][2][1]
-            run.check("R4", "step-test|increment-with-processing", same_idx, "every processing of a node must increment that node's step counter by one", site)
+            if return_early:
+                run.undecided("R4", "step-test|increment-with-processing", "the step test was not recognised", site)
+            else:
+                run.check("R4", "step-test|increment-with-processing", same_idx, "every processing of a node must increment that node's step counter by one", site)
         f = F.fn("has_stabilized", adt="Computation")
         t = S.value(S.Sym(F).term(f["body"]))
         run.check("R4", "has_stabilized|iff-worklist-empty", is_call(t, "is_empty") and self_field_term(t[2][0], "worklist"), "has_stabilized() must be exactly worklist.is_empty(); found %s" % fmt(t), F.loc(f["body"]))
@@ -367,11 +413,14 @@ def run(run):
     def r5():
         for name in ("create_bottom_up_worklist", "create_top_down_worklist"):
             f = F.fn(name, mod="forward_interprocedural_fixpoint")
-            t = S.Sym(F).term(f["body"])
-            bad = [x[1] for x in S.subterms(t) if is_call(x, ("remove_node", "retain_nodes", "filter", "filter_map", "take", "skip", "dedup", "truncate", "pop", "step_by", "take_while", "skip_while", "clear"))]
-            res = S.value(t)
-            flat = any(is_call(x, "flatten") for x in S.subterms(res)) and any(is_call(x, ("kosaraju_scc", "tarjan_scc", "toposort")) for x in S.subterms(res))
-            run.check("R5", "%s|all-nodes-once" % name, not bad and flat, "the priority list must contain every node of the graph exactly once (flattened SCCs of a graph with the same node set); node-removing calls: %s" % bad, F.loc(f["body"]))
+            deep = list(T.walk_deep(F, f["body"], 2))
+            bad = [x["n"] for x in deep if T.is_call(x, ("remove_node", "retain_nodes", "filter", "filter_map", "take", "skip", "dedup", "truncate", "pop", "step_by", "take_while", "skip_while", "clear", "filter_map_nodes"))]
+            scc = any(T.is_call(x, ("kosaraju_scc", "tarjan_scc", "toposort")) for x in deep)
+            concat = any(T.is_call(x, ("flatten", "extend", "append", "concat", "flat_map", "extend_from_slice")) for x in deep)
+            if scc and not concat and not bad:
+                run.undecided("R5", "%s|all-nodes-once" % name, "how the components are concatenated is not recognised", F.loc(f["body"]))
+            else:
+                run.check("R5", "%s|all-nodes-once" % name, not bad and scc and concat, "the priority list must contain every node of the graph exactly once (flattened SCCs of a graph with the same node set); node-removing calls: %s" % bad, F.loc(f["body"]))
         f = F.fn("new", adt="Computation", mod="analysis::fixpoint")
         t = S.Sym(F).term(f["body"])
         bad = [x[1] for x in S.subterms(t) if is_call(x, ("filter", "filter_map", "take", "skip", "dedup", "truncate", "step_by"))]
